@@ -1804,4 +1804,46 @@ pub mod verif_hooks {
             })
         }
     }
+    /// The `HashMap<String, Keyspace>` that `perform_maintenance` builds from the descriptions.
+    pub(crate) fn keyspaces_from_descs(keyspaces: &[KeyspaceDesc]) -> HashMap<String, Keyspace> {
+        keyspaces
+            .iter()
+            .map(|k| {
+                (
+                    k.name.clone(),
+                    Keyspace {
+                        strategy: Strategy::LocalStrategy,
+                        durable_writes: false,
+                        tablet_based: k.tablet_based,
+                        tables: k
+                            .tables
+                            .iter()
+                            .map(|t| (t.clone(), empty_table()))
+                            .collect(),
+                        views: k
+                            .views
+                            .iter()
+                            .map(|v| {
+                                (
+                                    v.clone(),
+                                    MaterializedView {
+                                        view_metadata: empty_table(),
+                                        base_table_name: String::new(),
+                                    },
+                                )
+                            })
+                            .collect(),
+                        user_defined_types: HashMap::new(),
+                    },
+                )
+            })
+            .collect()
+    }
+
+    impl VerifTablets {
+        /// For `cluster::verif_tablets_maintenance` (the caller-side derivation of the arguments).
+        pub(crate) fn info_mut(&mut self) -> &mut TabletsInfo {
+            &mut self.info
+        }
+    }
 }
